@@ -360,11 +360,21 @@ class C02Scenario(object):
             # arbitrary Unicode text
             alpha = list('{}[]":,\\ \n\t0123456789.-+eEtruefalsn') + ["é", "中", "\U0001F600", "\u0000", "\ufeff", "\u2028", "method", "jsonrpc", "id", "params"]
             base = "".join(rng.choice(alpha) for _ in range(rng.randint(0, 60)))
+        elif k < 0.22:
+            # large bodies: garbage or requests with long multi-byte strings (messages built from them get long too)
+            pad = rng.choice(["é", "€", "中", "\U0001F600"]) * rng.randint(300, 800)
+            base = rng.choice(["x" + pad, '{"jsonrpc": "2.0", "method": "echo", "params": ["%s"], "id": 1}' % pad,
+                               '{"method": "%s"}' % pad, "[" + pad + "]", '{"params": ["%s"]}' % pad, " " * rng.randint(1, 5), "\r\n", "\t \n"])
         elif k < 0.82:
             base = gen_request(rng)
         else:
             base = rng.choice(structural_variants())
-        dm = damages_of(base)
+        if len(base) > 250:
+            # a large body: a sample of truncation points and replacements (the full set would be tens of thousands)
+            dm = [["none"]] + [["trunc", rng.randrange(len(base) + 1)] for _ in range(30)] + \
+                 [["repl", rng.randrange(len(base)), rng.choice(ALPHABET)] for _ in range(28)]
+        else:
+            dm = damages_of(base) + [["none"]]
         rng.shuffle(dm)
         return {"server": rng.choice(["plain", "pooled", "dispatcher"]), "version": rng.choice([2.0, 1.0]),
                 "jsonclass": rng.random() < 0.7, "dispatch": rng.choice(["default", "default", "instance"]),
